@@ -10,5 +10,10 @@ for d, _, fs in os.walk(root):
             src = os.path.join(d, f)
             rel = os.path.relpath(src, root)
             rep[os.path.join('/repo', rel)] = src
-json.dump({'Replace': rep}, open(os.path.join(root, 'overlay.json'), 'w'), indent=1, sort_keys=True)
+# written under a private name and renamed: two checks running side by side must never read a half-written file
+dst = os.path.join(root, 'overlay.json')
+tmp = '%s.%d.tmp' % (dst, os.getpid())
+with open(tmp, 'w') as f:
+    json.dump({'Replace': rep}, f, indent=1, sort_keys=True)
+os.replace(tmp, dst)
 print(len(rep), 'overlay files')
